@@ -287,30 +287,93 @@ func project(dump []string, st map[string]int) []string {
 	return out
 }
 
+// corpus: hand-written witnesses with hand-written provenance tables ("tree path ns im", "-" = a
+// node the library inserts).
 func corpus() []rescorr.Case {
-	mk := func(texts ...string) rescorr.Case {
+	mk := func(table string, texts ...string) rescorr.Case {
 		var c rescorr.Case
 		for i, t := range texts {
 			c.Names = append(c.Names, fmt.Sprintf("c%d.yang", i))
 			c.Texts = append(c.Texts, t)
 		}
+		tab := map[string]gen.C12Expect{}
+		for _, line := range strings.Split(table, "\n") {
+			f := strings.Fields(line)
+			switch len(f) {
+			case 3:
+				tab[f[0]+" "+f[1]] = gen.C12Expect{Lib: true}
+			case 4:
+				tab[f[0]+" "+f[1]] = gen.C12Expect{NS: f[2], IM: f[3], By: f[3]}
+			}
+		}
+		b, _ := json.Marshal(tab)
+		c.Extra = map[string]string{"expect": string(b)}
 		return c
 	}
 	return []rescorr.Case{
 		// D40: two revisions of one module, a third module augmenting it
-		mk(`module m { namespace "urn:m"; prefix m; revision 2019-01-01; container c { leaf x { type string; } } }`,
+		mk(`m@2019-01-01 /m urn:m m
+			m@2019-01-01 /m/c urn:m m
+			m@2019-01-01 /m/c/x urn:m m
+			m@2020-01-01 /m urn:m m
+			m@2020-01-01 /m/c urn:m m
+			m@2020-01-01 /m/c/x urn:m m
+			m@2020-01-01 /m/c/y urn:m m
+			m@2020-01-01 /m/c/z urn:n n
+			n /n urn:n n`,
+			`module m { namespace "urn:m"; prefix m; revision 2019-01-01; container c { leaf x { type string; } } }`,
 			`module m { namespace "urn:m"; prefix m; revision 2020-01-01; container c { leaf x { type string; } leaf y { type string; } } }`,
 			`module n { namespace "urn:n"; prefix n; import m { prefix m; } augment /m:c { leaf z { type string; } } }`),
 		// D39: augment adds a shorthand member to a choice
-		mk(`module a { namespace "urn:a"; prefix a; choice ch { case k1 { leaf l { type string; } } } }`,
+		mk(`a /a urn:a a
+			a /a/ch urn:a a
+			a /a/ch/k1 urn:a a
+			a /a/ch/k1/l urn:a a
+			a /a/ch/viaaug -
+			a /a/ch/viaaug/viaaug urn:b b
+			a /a/ch/viaaug/viaaug/y urn:b b
+			b /b urn:b b`,
+			`module a { namespace "urn:a"; prefix a; choice ch { case k1 { leaf l { type string; } } } }`,
 			`module b { namespace "urn:b"; prefix b; import a { prefix a; } augment /a:ch { container viaaug { leaf y { type string; } } } }`),
 		// grouping defined in a, used in b, with an action; config three levels up; rpc output
-		mk(`module a { namespace "urn:a"; prefix a; grouping g { container gc { leaf gl { type string; } action act { input { leaf i { type string; } } output { leaf o { type string; } } } } } }`,
+		mk(`a /a urn:a a
+			b /b urn:b b
+			b /b/top urn:b b
+			b /b/top/l1 urn:b b
+			b /b/top/l1/l2 urn:b b
+			b /b/top/l1/l2/gc urn:b b
+			b /b/top/l1/l2/gc/gl urn:b b
+			b /b/top/l1/l2/gc/act urn:b b
+			b /b/top/l1/l2/gc/act/input urn:b b
+			b /b/top/l1/l2/gc/act/input/i urn:b b
+			b /b/top/l1/l2/gc/act/output urn:b b
+			b /b/top/l1/l2/gc/act/output/o urn:b b
+			b /b/top/l1/l2/deep urn:b b
+			b /b/top/l1/l2/back urn:b b
+			b /b/top/l1/l2/back/rw urn:b b
+			b /b/r urn:b b
+			b /b/r/input urn:b b
+			b /b/r/input/i urn:b b
+			b /b/r/output urn:b b
+			b /b/r/output/oc urn:b b
+			b /b/r/output/oc/o urn:b b`,
+			`module a { namespace "urn:a"; prefix a; grouping g { container gc { leaf gl { type string; } action act { input { leaf i { type string; } } output { leaf o { type string; } } } } } }`,
 			`module b { namespace "urn:b"; prefix b; import a { prefix a; }
 			   container top { config false; container l1 { container l2 { uses a:g; leaf deep { type string; } container back { config true; leaf rw { type string; } } } } }
 			   rpc r { input { leaf i { type string; } } output { container oc { leaf o { type string; } } } } }`),
 		// augment from a submodule into another module, and into its own module
-		mk(`module a { namespace "urn:a"; prefix a; container c { list l { key k; leaf k { type string; } } } }`,
+		mk(`a /a urn:a a
+			a /a/c urn:a a
+			a /a/c/l urn:a a
+			a /a/c/l/k urn:a a
+			a /a/c/l/fromsub urn:b b
+			a /a/c/l/fromsub/sl urn:b b
+			b /b urn:b b
+			b /b/own urn:b b
+			b /b/own/insub urn:b b
+			b /b/subtop urn:b b
+			b /b/subtop/q urn:b b`,
+			`module a { namespace "urn:a"; prefix a; container c { list l { key k; leaf k { type string; } } } }`,
 			`module b { namespace "urn:b"; prefix b; import a { prefix a; } include b-s; container own { } }`,
 			`submodule b-s { belongs-to b { prefix b; } import a { prefix a; } grouping sg { leaf sl { type string; } }
 			   augment /a:c/a:l { container fromsub { uses sg; } } augment /b:own { leaf insub { type string; } } container subtop { leaf q { type string; } } }`),
@@ -382,90 +445,115 @@ func main() {
 		return
 	}
 	res := lib.NewResult("C12", f)
-	nA, nB := 2600, 900
+	nA, nB := 14000, 4000
 	if f.Thorough() {
-		nA, nB = 120000, 40000
+		nA, nB = 300000, 80000
 	}
-	cases := corpus()
-	nCorpus := len(cases)
 	feat := map[string]int64{}
-	var withExpect int64
-	for i := 0; i < nA; i++ {
-		s := gen.GenerateC12(f.Rand(i), gen.C12Opts{OpsConfigRate: 0.12, TwoRevisions: i%8 == 7})
-		names, texts := s.Set.FilesRev()
-		c := rescorr.Case{Names: names, Texts: texts}
-		if s.Expect != nil {
-			b, _ := json.Marshal(s.Expect)
-			c.Extra = map[string]string{"expect": string(b)}
-			withExpect++
-		}
-		for k, v := range s.Feat {
-			feat[k] += int64(v)
-		}
-		cases = append(cases, c)
-	}
-	cfg := gen.Default()
-	cfg.MaxModules = 4
-	cfg.BadRate = 0.08
-	for i := 0; i < nB; i++ {
-		set := gen.Generate(f.Rand(1000000+i), cfg)
-		names, texts := set.Files()
-		cases = append(cases, rescorr.Case{Names: names, Texts: texts})
-	}
-	outs := rescorr.RunAll(cases, f)
+	var withExpect, total int64
 	distinct := lib.NewDistinct()
 	stats := map[string]int{}
 	extra := map[string]int64{}
 	var clean, withErr, outside, skipped, cleanA int64
-	for i, o := range outs {
-		switch {
-		case o.Crashed:
-			res.AddDisagreement(lib.Disagreement{Kind: "crash", Input: o.Case, Go: o.CrashMsg, SpecVerdict: "violates",
-				What: "goyang crashed or hung: " + firstLine(o.CrashMsg), Replay: o.Case})
-			continue
-		case o.Skipped != "":
-			skipped++
-			continue
-		}
-		if len(o.Go.Findings) > 0 {
-			res.AddDisagreement(lib.Disagreement{Kind: "spec", Input: o.Case.Texts, Go: o.Go.Findings, SpecVerdict: "violates",
-				What: "property oracle on the Go trees: " + o.Go.Findings[0], Replay: o.Case})
-		}
-		sumExtra(extra, o)
-		if o.Outside != "" {
-			outside++
-			continue
-		}
-		st := map[string]int{}
-		g := project(o.Go.Dump, st)
-		m := project(o.Model, nil)
-		if d := rescorr.Diff(g, m); d != "" {
-			verdict := "holds"
-			if len(o.Go.Findings) > 0 {
-				verdict = "violates"
+	// one generated case by global index: [0,nA) provenance generator, [nA,nA+nB) shared generator
+	cfg := gen.Default()
+	cfg.MaxModules = 4
+	cfg.BadRate = 0.08
+	mkCase := func(i int) (rescorr.Case, bool) {
+		if i < nA {
+			s := gen.GenerateC12(f.Rand(i), gen.C12Opts{OpsConfigRate: 0.12, TwoRevisions: i%8 == 7})
+			names, texts := s.Set.FilesRev()
+			c := rescorr.Case{Names: names, Texts: texts}
+			if s.Expect != nil {
+				b, _ := json.Marshal(s.Expect)
+				c.Extra = map[string]string{"expect": string(b)}
+				withExpect++
 			}
-			res.AddDisagreement(lib.Disagreement{Kind: "correspondence", Input: o.Case.Texts, Go: g, Model: m, SpecVerdict: verdict,
-				What: "ReadOnly/Namespace/InstantiatingModule differ from the model: " + d, Replay: o.Case})
+			for k, v := range s.Feat {
+				feat[k] += int64(v)
+			}
+			return c, true
 		}
-		if rescorr.HasErrors(o.Go.Dump) {
-			withErr++
-			continue
+		set := gen.Generate(f.Rand(1000000+i-nA), cfg)
+		names, texts := set.Files()
+		return rescorr.Case{Names: names, Texts: texts}, false
+	}
+	const chunk = 20000
+	for lo := -1; lo < nA+nB; {
+		var cases []rescorr.Case
+		var fromA []bool
+		if lo < 0 {
+			cases = corpus()
+			fromA = make([]bool, len(cases))
+			lo = 0
+		} else {
+			for i := lo; i < lo+chunk && i < nA+nB; i++ {
+				c, a := mkCase(i)
+				cases = append(cases, c)
+				fromA = append(fromA, a)
+			}
+			lo += chunk
 		}
-		clean++
-		if i >= nCorpus && i < nCorpus+nA {
-			cleanA++
+		nd, _ := res.Distribution["disagreements_total"].(int)
+		if nd >= 50 {
+			res.Notes = append(res.Notes, "stopped examining after 50 disagreements")
+			break
 		}
-		for k, v := range st {
-			stats[k] += v
-		}
-		if st["nodes_read_only"] > 0 || st["nodes_foreign_namespace"] > 0 {
-			if distinct.Add(strings.Join(o.Case.Texts, "\x00")) && (i < nCorpus || i%(len(outs)/5+1) == 0) {
-				res.AddSample(map[string]any{"files": o.Case.Names, "texts": o.Case.Texts, "nodes": st["nodes"],
-					"read_only": st["nodes_read_only"], "foreign_namespace": st["nodes_foreign_namespace"]})
+		total += int64(len(cases))
+		outs := rescorr.RunAll(cases, f)
+		for i, o := range outs {
+			switch {
+			case o.Crashed:
+				res.AddDisagreement(lib.Disagreement{Kind: "crash", Input: o.Case, Go: o.CrashMsg, SpecVerdict: "violates",
+					What: "goyang crashed or hung: " + firstLine(o.CrashMsg), Replay: o.Case})
+				continue
+			case o.Skipped != "":
+				skipped++
+				continue
+			}
+			if len(o.Go.Findings) > 0 {
+				res.AddDisagreement(lib.Disagreement{Kind: "spec", Input: o.Case.Texts, Go: o.Go.Findings, SpecVerdict: "violates",
+					What: "property oracle on the Go trees: " + o.Go.Findings[0], Replay: o.Case})
+			}
+			sumExtra(extra, o)
+			if o.Outside != "" {
+				outside++
+				continue
+			}
+			st := map[string]int{}
+			g := project(o.Go.Dump, st)
+			m := project(o.Model, nil)
+			if d := rescorr.Diff(g, m); d != "" {
+				// the oracle for ro is always evaluated, the one for ns/im needs a provenance table
+				verdict := "holds"
+				if len(o.Go.Findings) > 0 {
+					verdict = "violates"
+				} else if o.Case.Extra["expect"] == "" {
+					verdict = ""
+				}
+				res.AddDisagreement(lib.Disagreement{Kind: "correspondence", Input: o.Case.Texts, Go: g, Model: m, SpecVerdict: verdict,
+					What: "ReadOnly/Namespace/InstantiatingModule differ from the model: " + d, Replay: o.Case})
+			}
+			if rescorr.HasErrors(o.Go.Dump) {
+				withErr++
+				continue
+			}
+			clean++
+			if fromA[i] {
+				cleanA++
+			}
+			for k, v := range st {
+				stats[k] += v
+			}
+			if st["nodes_read_only"] > 0 || st["nodes_foreign_namespace"] > 0 {
+				if distinct.Add(strings.Join(o.Case.Texts, "\x00")) && (lo == 0 || i%4001 == 17) {
+					res.AddSample(map[string]any{"files": o.Case.Names, "texts": o.Case.Texts, "nodes": st["nodes"],
+						"read_only": st["nodes_read_only"], "foreign_namespace": st["nodes_foreign_namespace"]})
+				}
 			}
 		}
 	}
-	res.Evaluations = int64(len(cases))
+	res.Evaluations = total
 	res.DistinctNontrivial = distinct.Len()
 	res.Rule = "module sets: a hand-written corpus (D39, D40, grouping across modules with action, augment from a submodule), then seeded sets of harness/gen/c12.go (1-4 modules, 0-2 submodules each incl. nested include, globally unique groupings used across modules/submodules and inside each other, config statements at every depth on leaf/leaf-list/container/list/choice/anydata, choice/case with shorthand members, rpc/action/notification with config inside them at a low rate, augments from modules and submodules into own and imported modules incl. chains, shorthand choice members, written and unwritten rpc input/output, paths with and without implied-case steps; every 8th set additionally loads an older revision of one module) with the generator's provenance table, then sets of the shared generator gen.Generate (deviations included) without a table; distinct_nontrivial = distinct sets (by text) that process without errors and contain at least one read-only node or one node whose namespace differs from its tree's module"
 	res.Distribution["clean_sets"] = clean
